@@ -142,6 +142,7 @@ class Store(object):
             return new
         tgt = agreeing[0]
         e = self.feats[tgt]
+        self._repeat_stats(e, rec)
         new = dict((k, v) for k, v in rec["attrs"])
         for k in set(new) | set(e.attrs):
             old_v, new_v = e.attrs.get(k), new.get(k)
@@ -166,6 +167,38 @@ class Store(object):
         e.merged = True
         self._log("merged into key" if tgt == key else "merged into spawn")
         return tgt
+
+    def _repeat_stats(self, e, rec):
+        """Statistics only: the newcomer repeats the line stored under the key (verbatim / up to key order / value order);
+        value lists that hold a value more than once (the union has it once)."""
+        inner = lambda attrs: any(len(set(v)) != len(v) for _, v in attrs)
+        stored_inner = any(len(set(v)) != len(v) for v in e.attrs.values())
+        if stored_inner:
+            self._stat("merge: a value list of the stored feature holds a repeated value (the union has it once)")
+        if inner(rec["attrs"]):
+            self._stat("merge: a value list of the newcomer holds a repeated value (the union has it once)")
+        if e.merged or e.rec is None:
+            return
+        if any(e.rec[c] != rec[c] for c in COLS) or e.extra != list(rec.get("extra") or []):
+            return
+        a = [[k, list(v)] for k, v in e.rec["attrs"]]
+        b = [[k, list(v)] for k, v in rec["attrs"]]
+        norm = lambda x: sorted([k, sorted(v)] for k, v in x)
+        if a == b:
+            how = "verbatim"
+        elif sorted(a) == sorted(b):
+            how = "up to the order of the attribute keys"
+        elif [[k, sorted(v)] for k, v in a] == [[k, sorted(v)] for k, v in b]:
+            how = "up to the order of the values"
+        elif norm(a) == norm(b):
+            how = "up to the order of keys and values"
+        else:
+            return
+        self._stat("merge: the newcomer repeats the stored line " + how)
+        if inner(b):
+            self._stat("merge: the newcomer repeats the stored line %s, a value list of the line holds a repeated value" % how)
+        if e.extra:
+            self._stat("merge: the newcomer repeats the stored line (with extra columns)")
 
     # ---- what must be in the database ------------------------------------
     def expected(self):
